@@ -733,9 +733,6 @@ func (env *Env) evalLocs(e *Expr) (locs []Loc, err error) {
 		base := env.eval(e.Args[0])
 		if base.K == VSlice {
 			et := elemTypeOf(base.T)
-			if _, isStruct := et.Underlying().(*types.Struct); isStruct && !isOpaque(et) {
-				efail("modifies of struct slices not supported")
-			}
 			for _, c := range comps(et) {
 				locs = append(locs, Loc{arrMapName(et, c.suffix), base.Ref, SArr(SInt, SArr(SInt, c.sort))})
 			}
